@@ -549,6 +549,27 @@ func H_C04() {
 	verifReach("end")
 }
 
+// the seed depends on the pair (mnemonic, passphrase), not on their concatenation: two pairs that
+// split the same text differently, derived one after the other, each give their own reference value
+func H_C04_split() {
+	a := verifOpaque("a")
+	b := verifOpaque("b")
+	m1, p1 := a, "mnemonic"+b
+	m2, p2 := a+"mnemonic", b
+	s1 := MnemonicToSeed(m1, p1)
+	s2 := MnemonicToSeed(m2, p2)
+	s3 := MnemonicToSeed(m1, p1)
+	verifAssert(verifBytesEq(s1, verifSeedSpec(verifNFKD(m1), "mnemonic"+verifNFKD(p1))), "first-split-seed-equals-spec")
+	verifAssert(verifBytesEq(s2, verifSeedSpec(verifNFKD(m2), "mnemonic"+verifNFKD(p2))), "second-split-seed-equals-spec")
+	verifAssert(verifBytesEq(s3, verifSeedSpec(verifNFKD(m1), "mnemonic"+verifNFKD(p1))), "repeated-seed-equals-spec")
+	// empty components
+	e1 := MnemonicToSeed("", "mnemonic"+b)
+	e2 := MnemonicToSeed("mnemonic", b)
+	verifAssert(verifBytesEq(e1, verifSeedSpec("", "mnemonic"+verifNFKD("mnemonic"+b))), "empty-mnemonic-seed-equals-spec")
+	verifAssert(verifBytesEq(e2, verifSeedSpec("mnemonic", "mnemonic"+verifNFKD(b))), "mnemonic-word-seed-equals-spec")
+	verifReach("end")
+}
+
 func H_C11() {
 	nm := verifOpaque("nm")
 	np := verifOpaque("np")
@@ -559,6 +580,11 @@ func H_C11() {
 	s1 := MnemonicToSeed(m1, p1)
 	s2 := MnemonicToSeed(m2, p2)
 	verifAssert(verifBytesEq(s1, s2), "equal-nfkd-equal-seed")
+	// the most direct equivalent pair: a text and its own normal form
+	s3 := MnemonicToSeed(nm, np)
+	s4 := MnemonicToSeed(verifNFKD(nm), verifNFKD(np))
+	verifAssert(verifBytesEq(s3, s4), "text-and-its-normal-form-equal-seed")
+	verifAssert(verifBytesEq(s3, s1), "raw-and-respelled-equal-seed")
 	verifReach("end")
 }
 
@@ -1249,6 +1275,7 @@ var verifHarnesses = map[string]func(a []int64){
 	"H_C03_count":       func(a []int64) { H_C03_count(Language(a[0]), int(a[1])) },
 	"H_C04":             func(a []int64) { H_C04() },
 	"H_C11":             func(a []int64) { H_C11() },
+	"H_C04_split":       func(a []int64) { H_C04_split() },
 	"H_C11_spelled":     func(a []int64) { H_C11_spelled(Language(a[0]), int(a[1]), int(a[2])) },
 	"H_C10_pre":         func(a []int64) { H_C10_pre(Language(a[0]), int(a[1])) },
 	"H_C10_spelled":     func(a []int64) { H_C10_spelled(Language(a[0]), int(a[1]), int(a[2])) },
